@@ -7,6 +7,12 @@ def run(tier):
         e2e_ob(r, 'write-order-T%d-len%d-h%d' % (th, n, ht), th, n, 1, ht, 1, timeout=900 if tier == 'quick' else 3600)
     # every reconstructed crash prefix either is shorter than 74 bytes, or carries an all-zero / partial tag: decided on the real verify gate
     gate_obligations(r, tier, [60, 73, 74, 100] if tier == 'quick' else list(range(48, 140, 4)), prefix='prefix-', ops=('verify',))
+    # the tag field of a crash state (zero, or a partial tag write) against the real comparison: accepted only if the missing tag bytes are zero
+    uh, ureal = U_kern('kern_ufh', extra=UF_HASH), U_kern('kern')
+    for ht in (0, 1, 2):
+        for n in ((0, 37) if tier == 'quick' else (0, 5, 37, 64, 130)):
+            r.add(Ob('crash-tag-h%d-len%d' % (ht, n), 'h_c08.c', [uh], defines=['H_CMP', 'CRASHTAG', 'HT=%d' % ht, 'FLEN=%d' % (n + 48), 'POS=48', 'SREF_MSGMAX=%d' % (n + 8)],
+                     unwind=max(400, n + 130), timeout=300 if tier == 'quick' else 1800, envs=KERN_ENVS, replay_units=[ureal], replay_envs=['env_native.c', 'env_native_file.c']))
     r.bounds = ['write sequences of %s (T, plaintext bytes, hash mode); crash point = any prefix of the write log incl. a partial last write' % cfgs]
     r.outside = ['A-ZERO: HMAC(k, body prefix) is not all-zero / does not end in the zero bytes of a partially written tag (probability 2^-8(hlen-j))']
     r.assumptions = ['A-ZERO', 'as C01', 'the solver decides the SHAPE of every intermediate file: all writes before the tag patch are appends in file order over a zero tag field, the tag is the last write and is computed only after the last body write; a file of that shape is rejected by the gate obligations (accept iff tag == HMAC)']
@@ -14,4 +20,4 @@ def run(tier):
     return r.finish()
 
 def replay(rp):
-    return generic_replay(rp, {'kern_e2e_b1': lambda: U_kern('kern', buf=1), 'kern_gate': U_kern, 'kern': U_kern})
+    return generic_replay(rp, {'kern_e2e_b1': lambda: U_kern('kern', buf=1), 'kern_gate': U_kern, 'kern_ufh': U_kern, 'kern': U_kern})
